@@ -93,6 +93,14 @@ theorem capacity_is_item_7 {R : Type} [LawfulCapOps R] (a : Int) (r : R) (used a
       (CapOps.capLt a r (used + amount) = false ∧ amount ≤ maxUnit) :=
   summary_ok_iff a r used amount maxUnit hnn
 
+/-- the capacity filter on a whole merged request: it passes `exceeds_capacity` iff every entry meets `Spec.limitOk`,
+when the provider summaries were built from the inventories (`LimitsFrom`) -/
+theorem capacity_filter_is_item_7 {R : Type} [LawfulCapOps R] (db : DB R) (ctx : Ctx) (st : Store) (a : Areq)
+    (hlim : ∀ i ∈ a.arrs, LimitsFrom db ctx ((getArr st i).rp, (getArr st i).rc)) :
+    exceeds ctx st a = false ↔
+      ∀ i ∈ a.arrs, limitOk db (((getArr st i).rp, (getArr st i).rc), (getArr st i).amount) :=
+  exceeds_iff_limitOk db ctx st a hlim
+
 /-! non-vacuity: a query with two suffixed groups asking the same class, both placed on provider 7 (not isolate);
 the code's consolidation returns the single entry ((7, 0), 3) = 1 + 2 -/
 def exQ : Query := { shareT := 0, groups := [{ suffix := 1, resources := [(0, 1)] }, { suffix := 2, resources := [(0, 2)] }] }
